@@ -135,6 +135,27 @@ def g_hist_far(r):
     return fmt(ops)
 
 
+def g_restore(r):
+    """store X, overwrite a proper prefix (or suffix) of it, then store the SAME value X again exactly over the rest,
+    then read: a store must never be skipped because 'the same value is already there'"""
+    base = r.choice([0, 0, 100, TOP - 300])
+    w = r.choice([2, 4, 4, 8, 8, 8, 12, 16])
+    x = value(r, r.choice([w, w, max(1, w // 2)]))
+    a = base + r.randint(0, 20)
+    k = r.randint(1, w - 1)
+    ops = ["st %d %d %s" % (a, w, x)]
+    if r.random() < 0.7:
+        ops.append("st %d %d %s" % (a, k, value(r, k)))                 # prefix overwritten
+        ops.append("st %d %d %s" % (a + k, w - k, x))                   # X again over the tail
+        ops.append("ld %d %d" % (a + k, w - k))
+    else:
+        ops.append("st %d %d %s" % (a + k, w - k, value(r, w - k)))     # suffix overwritten
+        ops.append("st %d %d %s" % (a, k, x))                           # X again over the head
+        ops.append("ld %d %d" % (a, k))
+    ops += ["ld %d %d" % (a, w), "bl", "ms %d %d" % (max(base, a - 1), w + 2)]
+    return fmt(ops)
+
+
 def g_hist_wide(r):
     """few, wide stores (narrow values stored 33..255 bytes wide) and byte loads anywhere in them"""
     ops = history(r, window=60, nops=r.choice([2, 3, 4, 6]), wide=True)
